@@ -253,7 +253,7 @@ class Renderer:
                 if r is None: return None
                 res = res or r
             return res
-        return [union] + self.clip_tests(cp, cp_own, ctm, depth + 1)
+        return [union] + self.clip_tests(cp, cp_own, cm, depth + 1)
 
     def build(self, el, inherited, ctm, depth=0):
         """-> list of layers for element el (in device space = root user space)"""
